@@ -295,61 +295,20 @@ Section Steps.
       + destruct (existsb _ _); [|discriminate]. intros H; inversion H; subst. split; constructor.
   Qed.
 
-  Lemma matching_fst c k :
-    fst (matching_versions O c k) =
-      match pkg_list c (vk_pkg k) with
-      | None => c
-      | Some vs => set_pkg c (vk_pkg k) (fst (match_requirement O k vs))
-      end.
-  Proof.
-    unfold matching_versions. destruct (pkg_list c (vk_pkg k)); auto.
-    destruct (match_requirement O k l); auto.
-  Qed.
-
-  Lemma matching_snd c k :
-    snd (matching_versions O c k) =
+  Lemma matching_spec c k :
+    matching_versions O c k =
       match pkg_list c (vk_pkg k) with
       | None => Err ENotFound
-      | Some vs => Ok (snd (match_requirement O k vs))
+      | Some vs => Ok (match_requirement O k vs)
       end.
-  Proof.
-    unfold matching_versions. destruct (pkg_list c (vk_pkg k)); auto.
-    destruct (match_requirement O k l); auto.
-  Qed.
-
-  Lemma matching_pkg_list c k p :
-    pkg_list (fst (matching_versions O c k)) p =
-      if pkey_eqb (vk_pkg k) p
-      then match pkg_list c p with Some vs => Some (fst (match_requirement O k vs)) | None => None end
-      else pkg_list c p.
-  Proof.
-    rewrite matching_fst. destruct (pkey_eqb (vk_pkg k) p) eqn:Ep.
-    - apply pkey_eqb_eq in Ep. subst p. destruct (pkg_list c (vk_pkg k)) eqn:E; auto.
-      rewrite pkg_list_set_pkg, pkey_eqb_refl. auto.
-    - destruct (pkg_list c (vk_pkg k)); auto. rewrite pkg_list_set_pkg, Ep. auto.
-  Qed.
-
-  Lemma matching_imports c k : c_imports (fst (matching_versions O c k)) = c_imports c.
-  Proof. rewrite matching_fst. destruct (pkg_list c (vk_pkg k)); auto. Qed.
-
-  Lemma matching_wf c k : wf c -> wf (fst (matching_versions O c k)).
-  Proof.
-    intros W p vs. rewrite matching_pkg_list.
-    destruct (pkey_eqb (vk_pkg k) p); [|apply W].
-    destruct (pkg_list c p) eqn:E; [|discriminate].
-    intros H; inversion H; subst; clear H.
-    destruct (W _ _ E) as [ND FA].
-    pose proof (match_requirement_fst_perm O k l) as Hp. split.
-    - eapply Permutation_NoDup; [symmetry; apply Permutation_map; exact Hp | auto].
-    - eapply Permutation_Forall; [symmetry; exact Hp | auto].
-  Qed.
+  Proof. reflexivity. Qed.
 
   Lemma step_wf c o : wf c -> wf (fst (step O var c o)).
-  Proof.
-    intros W. destruct o; simpl; auto.
-    - apply add_version_wf; auto.
-    - pose proof (matching_wf c k W). destruct (matching_versions O c k); auto.
-  Qed.
+  Proof. intros W. destruct o; simpl; auto. apply add_version_wf; auto. Qed.
+
+  (* only AddVersion writes *)
+  Lemma step_lookup_state c o : (forall v d, o <> HAdd v d) -> fst (step O var c o) = c.
+  Proof. intros H. destruct o; auto. exfalso. eapply H; eauto. Qed.
 
   (* ---------- what one operation does to the three lookups ---------- *)
   Definition ver_lookup (c : client) (k : vkey) : option version :=
@@ -430,27 +389,6 @@ Section Steps.
     destruct (existsb _ deps); auto.
   Qed.
 
-  Lemma ver_lookup_matching c kq k : wf c -> ver_lookup (fst (matching_versions O c kq)) k = ver_lookup c k.
-  Proof.
-    intros W. unfold ver_lookup, pkg_list_or_nil. rewrite matching_pkg_list.
-    destruct (pkey_eqb (vk_pkg kq) (vk_pkg k)); auto.
-    destruct (pkg_list c (vk_pkg k)) eqn:E; auto.
-    symmetry. apply find_ver_perm; [apply (W _ _ E)|].
-    symmetry. apply match_requirement_fst_perm.
-  Qed.
-
-  Lemma req_lookup_matching c kq k : req_lookup (fst (matching_versions O c kq)) k = req_lookup c k.
-  Proof. unfold req_lookup. rewrite matching_imports. auto. Qed.
-
-  Lemma known_matching c kq p : known (fst (matching_versions O c kq)) p = known c p.
-  Proof.
-    unfold known. rewrite matching_pkg_list.
-    destruct (pkey_eqb (vk_pkg kq) p); auto. destruct (pkg_list c p); auto.
-  Qed.
-
-  Lemma step_matching_fst c k : fst (step O var c (HMatching k)) = fst (matching_versions O c k).
-  Proof. simpl. destruct (matching_versions O c k); auto. Qed.
-
   (* ---------- histories ---------- *)
   Lemma run_snoc ops o : run O var (ops ++ [o]) = fst (step O var (run O var ops) o).
   Proof. unfold run, run_from. rewrite fold_left_app. auto. Qed.
@@ -482,7 +420,6 @@ Section Steps.
     - simpl fst. rewrite ver_lookup_add by (auto; apply run_wf).
       rewrite live_add_HAdd. destruct (deleted v); auto.
       destruct (vkey_eqb (v_key v) k); auto.
-    - rewrite step_matching_fst, ver_lookup_matching by apply run_wf. exact IH.
   Qed.
 
   (* C14_requirements *)
@@ -495,7 +432,6 @@ Section Steps.
     - simpl fst. rewrite req_lookup_add.
       rewrite live_add_HAdd. destruct (deleted v); auto.
       destruct (vkey_eqb (v_key v) k); auto.
-    - rewrite step_matching_fst, req_lookup_matching. exact IH.
   Qed.
 
   (* C14_packages_known *)
@@ -506,7 +442,6 @@ Section Steps.
     destruct o; try (simpl; unfold mentions; simpl; rewrite orb_false_r; exact IH).
     - simpl fst. rewrite known_add, IH. unfold mentions. rewrite live_add_HAdd.
       destruct (deleted v); [rewrite orb_false_r; auto|]. rewrite orb_assoc. auto.
-    - rewrite step_matching_fst, known_matching, IH. unfold mentions. simpl. rewrite orb_false_r. auto.
   Qed.
 End Steps.
 
@@ -674,18 +609,6 @@ Section Order.
           destruct (N.eqb (pk_sys p) sys_npm); [intros; apply nil_eco_sorted | split; constructor].
     Qed.
 
-    Lemma matching_ord c k : wf c -> ord_inv c -> ord_inv (fst (matching_versions O c k)).
-    Proof.
-      intros W I p vs. rewrite matching_pkg_list.
-      destruct (pkey_eqb (vk_pkg k) p) eqn:Ep; [|apply I].
-      apply pkey_eqb_eq in Ep. subst p.
-      destruct (pkg_list c (vk_pkg k)) eqn:E; [|discriminate].
-      intros H; inversion H; subst; clear H.
-      pose proof (I _ _ E) as Io. unfold match_requirement.
-      destruct (N.eqb (pk_sys (vk_pkg k)) sys_npm) eqn:Es; simpl; auto.
-      intros _. apply N.eqb_eq in Es. rewrite Es. apply sort_npm_eco.
-    Qed.
-
     Lemma run_ord ops : Forall add_parses ops -> ord_inv (run O var ops).
     Proof.
       induction ops as [|o ops IH] using rev_ind; intros H.
@@ -693,7 +616,6 @@ Section Order.
       - apply Forall_app in H as [H1 H2]. inversion H2; subst.
         rewrite run_snoc. destruct o; try (simpl; auto; fail).
         + simpl. apply add_version_ord; auto. apply run_wf.
-        + rewrite step_matching_fst. apply matching_ord; auto. apply run_wf.
     Qed.
   End WithLaws.
 
@@ -719,12 +641,6 @@ Section Order.
         * destruct (pkg_list (run O var ops) p) eqn:E'.
           -- intros E; inversion E; subst. apply (IH _ _ E').
           -- destruct (existsb _ _); [|discriminate]. intros E; inversion E; constructor.
-      + rewrite step_matching_fst.
-        intros p vs. rewrite matching_pkg_list.
-        destruct (pkey_eqb (vk_pkg k) p); [|apply IH].
-        destruct (pkg_list (run O var ops) p) eqn:E'; [|discriminate].
-        intros E; inversion E; subst.
-        eapply Permutation_Forall; [symmetry; apply match_requirement_fst_perm|]. apply (IH _ _ E').
   Qed.
 
   Lemma nodup_ver p vs :
@@ -844,9 +760,9 @@ Section Canonical.
     versions_of (run O var ops1) (vk_pkg k) = Ok vs1 ->
     versions_of (run O var ops2) (vk_pkg k) = Ok vs2 ->
     vs1 = vs2 ->
-    snd (matching_versions O (run O var ops1) k) = snd (matching_versions O (run O var ops2) k).
+    matching_versions O (run O var ops1) k = matching_versions O (run O var ops2) k.
   Proof.
-    intros H1 H2 E. rewrite !matching_snd. unfold versions_of in *.
+    intros H1 H2 E. rewrite !matching_spec. unfold versions_of in *.
     destruct (pkg_list (run O var ops1) (vk_pkg k)); inversion H1; subst.
     destruct (pkg_list (run O var ops2) (vk_pkg k)); inversion H2; subst. auto.
   Qed.
@@ -916,8 +832,8 @@ Qed.
 Lemma client_tie_witness :
   (forall k, option_map fst (last_add w_tie_1 k) = option_map fst (last_add w_tie_2 k)) /\
   Forall add_concrete w_tie_1 /\ Forall add_concrete w_tie_2 /\
-  snd (matching_versions tie_oracle (run tie_oracle FixAssignSort w_tie_1) w_tie_req) = Ok [w_a; w_b] /\
-  snd (matching_versions tie_oracle (run tie_oracle FixAssignSort w_tie_2) w_tie_req) = Ok [w_b; w_a].
+  matching_versions tie_oracle (run tie_oracle FixAssignSort w_tie_1) w_tie_req = Ok [w_a; w_b] /\
+  matching_versions tie_oracle (run tie_oracle FixAssignSort w_tie_2) w_tie_req = Ok [w_b; w_a].
 Proof.
   split; [intros k; apply last_add_two; try reflexivity; discriminate|].
   repeat split; repeat constructor.
